@@ -135,3 +135,12 @@ check(
     "fuzzing over a path grammar with an audit-hook oracle, a before/after snapshot oracle and a differential (normalised twin) oracle",
     "DESIGN.md section 3 C13",
 )
+
+check(
+    "C18",
+    "exploration",
+    "The full deployment matrix (4 route prefixes x 4 principal paths x 3 creation modes x 2 front ends x 3 restart counts = 288 configurations; 576 in thorough) is run with real server processes (python -m xandikos serve; xandikos.wsgi behind WellknownRedirector in a fresh process) and a discovery client that only follows hrefs the server returned; stored data and the set of collections must survive every real process restart.",
+    "Trusted: the harness's discovery client (RFC 6764 / 5397 / 4791 / 6352 chain) and its wsgiref-based model of a WSGI deployment (SCRIPT_NAME mount, Content-Length-limited input).",
+    "exhaustive configuration enumeration with a client-side reachability oracle",
+    "DESIGN.md section 3 C18",
+)
